@@ -249,7 +249,7 @@ PROPS = {
     ),
     'C10': dict(
         tv=dict(module='MustacheTrace', cfg='MustacheTrace.C10.cfg'),
-        mc=[],
+        mc=[dict(module='MustacheMC', cfg={'quick': 'MustacheMC.quick.cfg', 'thorough': 'MustacheMC.thorough.cfg'})],
         corrupt=[('append a character to the rendering', _appendout)],
         exhaustive_part=True,
         harness_prefix='HARNESS:',
